@@ -37,7 +37,8 @@ class SimTransport(asyncio.Transport):
 
     def get_extra_info(self, name, default=None):
         if name == "peername":
-            return (self._conn.host, self._conn.port)
+            # a peer that reset the connection before the transport was set up: getpeername() failed -> None
+            return None if self._conn.no_peername else (self._conn.host, self._conn.port)
         if name == "sockname":
             return ("192.0.2.1", 40000 + self._conn.cid)
         return default
@@ -131,6 +132,7 @@ class SimConn:
         self.deliveries = []            # [(time, start, end)] actual data_received calls
         self.state = {}                 # scratch for the server (session key, counters ...)
         self.hostile_until = 0.0        # latest scheduled hostile event (close / non-honest bytes)
+        self.no_peername = False
         self._lost_called = False
 
     # --- client side events ------------------------------------------------------------------
@@ -210,10 +212,13 @@ class SimConn:
                 "exception": exc, "transport": self.transport, "protocol": self.protocol})
             self.transport._force_close(exc)
 
-    def close(self, rst=False, lat=MIN_LAT):
-        """Server closes: FIN (default) or RST, delivered after everything already queued."""
+    def close(self, rst=False, lat=MIN_LAT, same_tick=False):
+        """Server closes: FIN (default) or RST, delivered after everything already queued.
+
+        same_tick: the FIN shares the last data segment's instant (both are processed in one loop iteration,
+        before the reader task runs again) - the next operation then finds the connection already closed."""
         loop = self.net.loop
-        t = max(quantize(loop.time() + lat), self._last_sched + TICK)
+        t = max(quantize(loop.time() + lat), self._last_sched + (0 if same_tick else TICK))
         self._last_sched = t
         self.hostile_until = max(self.hostile_until, t)
         loop.at(t, self._deliver_close, rst)
@@ -365,11 +370,24 @@ class SimNet:
         protocol = factory()
         conn = SimConn(self, len(self.conns), host, port, server, protocol)
         self.conns.append(conn)
-        protocol.connection_made(conn.transport)
+        if action == "accept_reset":
+            conn.no_peername = True
+        try:
+            # asyncio calls connection_made from a loop callback: an exception there is reported to the loop's
+            # exception handler and create_connection() still returns the (transport, protocol) pair
+            protocol.connection_made(conn.transport)
+        except (SystemExit, KeyboardInterrupt):
+            raise
+        except BaseException as exc:
+            self.protocol_exceptions.append(("connection_made", type(exc).__name__, repr(exc)))
+            loop.call_exception_handler({"message": "Exception in callback connection_made", "exception": exc})
         server.on_connect(conn)
         if action == "accept_close":
             self.stats["connect_then_close"] += 1
             conn.close(lat=MIN_LAT)
+        if action == "accept_reset":
+            self.stats["connect_then_reset"] += 1
+            conn.close(rst=True, lat=TICK)
         return conn.transport, protocol
 
     # --- UDP ---------------------------------------------------------------------------------
